@@ -80,6 +80,13 @@ def lam_min_of(name, trace):
                       / np.max(r['model'].cacg.covariance_eigenvalues, axis=-1)).min()) for r in trace)
 
 
+def diverging(name, trace):
+    """a Bingham concentration beyond 1e6: the class has collapsed onto (numerically) rank-deficient scatter"""
+    if name != 'cbmm':
+        return False
+    return max(float(np.abs(r['model'].complex_bingham.covariance_eigenvalues).max()) for r in trace) > 1e6
+
+
 def perms_for(rng, K, tier):
     allp = [p for p in itertools.permutations(range(K)) if p != tuple(range(K))]
     if tier == 'thorough' and K <= 4:
@@ -222,37 +229,52 @@ def eval_perm(rp):
     nontrivial = False
     coq_parts = []
     r = np.random.default_rng(rp['pick'])
-    probe = None
+    cache = {}
+
+    def probe_noise():
+        """conditioning probe: the same fit (same labelling) with start and data perturbed at the 1e-13 level; returns the
+        largest relative deviation of any observable, or None when the perturbed fit raises"""
+        if 'v' not in cache:
+            pr = np.random.default_rng(rp['pick'] + 1)
+            ip = init + 1e-13 * pr.random(init.shape)
+            ip = ip / ip.sum(-2, keepdims=True)
+            dp = {}
+            for kk, vv in data.items():
+                if np.iscomplexobj(vv):
+                    dp[kk] = vv * (1 + 1e-13 * (pr.uniform(-1, 1, vv.shape) + 1j * pr.uniform(-1, 1, vv.shape)))
+                else:
+                    dp[kk] = vv * (1 + 1e-13 * pr.uniform(-1, 1, vv.shape))
+            try:
+                d_ = deviations(name, shape, A, run(ip, mask, dp)[0], list(range(K)))
+                cache['v'] = max(v[1] for v in d_.values())
+            except Exception:
+                cache['v'] = None
+        return cache['v']
     for pi, sigma in enumerate(rp['perms']):
         sigma = list(sigma)
         initB = np.ascontiguousarray(init[..., sigma, :])
         maskB = None if mask is None else np.ascontiguousarray(mask[..., sigma, :])
         try:
             B, gapB = run(initB, maskB)
+        except EXPLICIT as e:
+            # an assertion on a rounding-level quantity (cBMM: sign of a scatter eigenvalue that is zero in exact arithmetic)
+            # may fire for one labelling only; accepted when the trajectory is ill-conditioned, i.e. the same happens (or
+            # the result moves) under a 1e-13 perturbation with the SAME labelling
+            if diverging(name, trA) or probe_noise() is None or probe_noise() > 1e-3:
+                return None, None, None, 'ill-conditioned trajectory: %s for sigma=%s only' % (type(e).__name__, sigma), False
+            return ('%s: fit succeeds for the original labelling but raises %s for sigma=%s: %s' % (name, type(e).__name__, sigma, str(e)[:200]),
+                    'perm:raises-relabelled:%s' % name, None, None, False)
         except Exception as e:
             return ('%s: fit succeeds for the original labelling but raises %s for sigma=%s: %s' % (name, type(e).__name__, sigma, str(e)[:200]),
                     'perm:raises-relabelled:%s' % name, None, None, False)
         dev = deviations(name, shape, A, B, sigma)
         worst = max(dev, key=lambda k_: dev[k_][1])
         if dev[worst][1] > tol:
-            # conditioning probe: the same fit (same labelling) with start and data perturbed at the 1e-13 level.  A
-            # deviation that such a perturbation reproduces is rounding amplified by an ill-conditioned trajectory (collapsing
-            # class, diverging concentration, oracle stopping tolerance), not a dependence on the labelling.
-            if probe is None:
-                pr = np.random.default_rng(rp['pick'] + 1)
-                ip = init + 1e-13 * pr.random(init.shape)
-                ip = ip / ip.sum(-2, keepdims=True)
-                dp = {}
-                for kk, vv in data.items():
-                    if np.iscomplexobj(vv):
-                        dp[kk] = vv * (1 + 1e-13 * (pr.uniform(-1, 1, vv.shape) + 1j * pr.uniform(-1, 1, vv.shape)))
-                    else:
-                        dp[kk] = vv * (1 + 1e-13 * pr.uniform(-1, 1, vv.shape))
-                try:
-                    probe = deviations(name, shape, A, run(ip, mask, dp)[0], list(range(K)))
-                except Exception:
-                    probe = {}
-            noise = max([v[1] for v in probe.values()] + [0.0])
+            # A deviation that a 1e-13 perturbation (same labelling) reproduces is rounding amplified by an ill-conditioned
+            # trajectory (collapsing class, diverging concentration, oracle stopping tolerance), not a dependence on the labelling.
+            noise = probe_noise()
+            if noise is None:
+                return None, None, None, 'ill-conditioned trajectory (the fit raises under a 1e-13 perturbation of start and data)', False
             if dev[worst][1] <= 10 * noise:
                 return None, None, None, ('ill-conditioned trajectory (a 1e-13 perturbation of start and data moves the result by %.3g): '
                                           'outside the comparison' % noise), False
